@@ -32,10 +32,13 @@ REL = 1e-9
 
 # source tie (harness/translate.py, dialect 'obj' of harness/translate_obj.py -> lean/TaurexModel/Gen/SrcC18.lean, tied to
 # TaurexModel/Variance.lean in lean/Props/C18Src.lean).  `mean` / `M2` are None until the first update: `Option α`.
+# parallelVariance, generate_profiles.sample_iter and compute_derived_trace: dialect 'par' (harness/translate_par.py).
 _MA = 'taurex/util/math.py'
 _OV = {'self.count': ('count', 's'), 'self.wcount': ('wcount', 's'), 'self.wcount2': ('wcount2', 's'),
        'self.mean': ('mean', 'opt'), 'self.M2': ('M2', 'opt')}
 _OVS = ['self.count', 'self.wcount', 'self.wcount2', 'self.mean', 'self.M2']
+_OP = 'taurex/optimizer/optimizer.py'
+_LOGCALLS = r'^self\.(debug|info|warning|error|critical)\(|^(enable|disable)Logging\(\)$'
 SRC_SPECS = [
     dict(module=_MA, cls='OnlineVariance', func='reset', lean='OnlineVariance_reset', callname='self.reset', dialect='obj',
          params={}, attrs=_OV, state=_OVS),
@@ -48,6 +51,36 @@ SRC_SPECS = [
     dict(module=_MA, cls='OnlineVariance', func='combine_variance', lean='combine_variance', dialect='obj',
          params=dict(averages='list', variance='list', counts='list'), identity={'np.nan': 'is_np_nan'},
          returns=['s', 's'], raises='option'),
+    # dialect 'par' (harness/translate_par.py): the k-th MPI collective is the parameter `allgather k <own contribution>`
+    # (what the collective returns on this rank; the tie quantifies over the local states of all ranks)
+    dict(module=_MA, cls='OnlineVariance', func='parallelVariance', lean='parallelVariance', dialect='par',
+         params={}, attrs=dict(_OV, **{'np.nan': ('np_nan', 's')}), properties={'self.variance': 'variance'},
+         calls={'self.combine_variance': 'combine_variance'}, collectives={'mpi.allgather': ('allgather', 'gather')},
+         identity={'np.nan': 'is_np_nan'}, raises='option'),
+    # the generator handed to compute_error by generate_profiles: the samples `sample_list[rank::size]` in order; the value
+    # is the list of (state of the forward model left by update_model, yielded weight).  enableLogging / disableLogging only
+    # switch the logger
+    dict(module=_OP, cls='Optimizer', func='generate_profiles', inner='sample_iter', lean='sample_iter', dialect='par',
+         closure=['rank', 'size'], closure_params=['sample_list'], params=dict(sample_list='pairlist:P'),
+         nat_externals={'mpi.get_rank()': 'mpi_rank', 'mpi.nprocs()': 'mpi_size'},
+         world=dict(type='W', calls={'self.update_model': ('update_model', ['obj:P'])}, reads={}),
+         ignore_calls=_LOGCALLS, returns='yields'),
+    # compute_derived_trace for ONE derived parameter (the function is point-wise in the distinct names `derived_names`):
+    # evaluation of the samples `range(rank, n, size)`, gather of the traces and of the sample indices in rank order
+    # (`allreduce` of lists = concatenation), restoring sample order by the argsort of the gathered indices.  The quantile
+    # summary of the restored trace is C09's (Props/C09Src.lean); here only the stored 'trace' is kept
+    dict(module=_OP, cls='Optimizer', func='compute_derived_trace', lean='compute_derived_trace', dialect='par',
+         params=dict(solution='skip'), lift_keys='self.derived_names', lens={'samples': 'nsamples'},
+         attrs={'self.get_samples(solution)': ('samples', 'objarr:P'), 'self.get_weights(solution)': ('weights', 'arr')},
+         nat_externals={'mpi.get_rank()': 'mpi_rank', 'mpi.nprocs()': 'mpi_size'},
+         world=dict(type='W', calls={'self.update_model': ('update_model', ['obj:P']),
+                                     'self._model.initialize_profiles': ('initialize_profiles', [])},
+                    reads={'self.derived_values': ('derived_values', 's')}),
+         collectives={'mpi.allreduce': ('allreduce', 'concat', {'op': "'SUM'"})},
+         list_externals={'np.argsort': ('argsort_nat', ['natlist'], 'natlist'),
+                         'quantile_corner': ('quantile_corner', ['list', 'list', 'list'], 'list', ('weights',)),
+                         'np.average': ('average', ['list', 'list'], 's', ('weights',), {'axis': '0'})},
+         result='derived', dict_skip=['value', 'sigma_m', 'sigma_p', 'mean'], ignore_calls=_LOGCALLS),
 ]
 
 
